@@ -5,115 +5,101 @@ derivation of the inductive semantics.  Inversion lemmas and the loops. -/
 namespace DL.CF
 
 theorem seq_has_inv {x y : Compl} {o : Outcome} (h : (x.seq y).has o = true) :
-    (o ≠ .normal ∧ x.has o = true) ∨ (x.n = true ∧ y.has o = true) := by
+    (o ≠ .normal ∧ x.has o = true) ∨ (x.has .normal = true ∧ y.has o = true) := by
   rw [has_seq] at h
   simp only [Bool.or_eq_true, Bool.and_eq_true] at h
   exact h.imp (fun h => ⟨(Outcome.abrupt_iff o).mp h.1, h.2⟩) id
 
-theorem evalCompl_has_inv {ks : Kids} {o : Outcome} (h : (evalCompl ks).has o = true) : Eval ks o := by
-  rw [has_evalCompl] at h
-  rcases o with _ | l | l | _ | _ <;> simp at h
-  · exact Eval.normal ks
-  · exact Eval.thr ks h
-
-/-- an abrupt completion of evaluating expressions is a throw -/
-theorem evalCompl_abrupt_inv {ks : Kids} {o : Outcome} (ha : o ≠ .normal) (h : (evalCompl ks).has o = true) :
-    o = .thr ∧ Eval ks .thr := by
-  have := evalCompl_has_inv h
-  cases this with
-  | normal => exact absurd rfl ha
-  | thr hm => exact ⟨rfl, Eval.thr ks hm⟩
-
-theorem testCompl_abrupt_inv {tt : Bool} {ks : Kids} {o : Outcome} (ha : o ≠ .normal) (h : (testCompl tt ks).has o = true) :
-    o = .thr ∧ tt = false ∧ Eval ks .thr := by
+theorem testCompl_has_inv {tt : Bool} {t : Kids} {o : Outcome} (iht : ∀ o', t.compl.has o' = true → EvalKids t o')
+    (h : (testCompl tt t).has o = true) : EvalTest tt t o := by
   rw [has_testCompl] at h
-  rcases o with _ | l | l | _ | _ <;> simp at h
-  · exact absurd rfl ha
-  · exact ⟨rfl, h.1, Eval.thr ks h.2⟩
+  cases tt with
+  | false => exact .eval (iht o (by simpa using h))
+  | true =>
+    simp only [if_true] at h
+    cases o <;> simp at h
+    exact .known
 
-theorem exitsLoop_thr (ls : List Id) : Outcome.thr.exitsLoop ls = some .thr := rfl
+theorem exitsLoop_abrupt (ls : List Id) (o o' : Outcome) (h : o.exitsLoop ls = some o') : True := trivial
 
-/-! ### loops -/
+/-- a throw of the test / update / binding while going round: the outcome is unchanged -/
+theorem union_has_inv {x y : Compl} {o : Outcome} (h : (x.union y).has o = true) : x.has o = true ∨ y.has o = true := by
+  rw [has_union] at h; exact (Bool.or_eq_true _ _).mp h
+
+theorem guard_abrupt_inv {g : Bool} {y : Compl} {o : Outcome} (h : (Compl.guard g y.abrupt).has o = true) :
+    g = true ∧ o ≠ .normal ∧ y.has o = true := by
+  simp only [has_guard, has_abrupt, Bool.and_eq_true] at h
+  exact ⟨h.1, (Outcome.abrupt_iff o).mp h.2.1, h.2.2⟩
+
 theorem while_complete (ls : List Id) (p : Nat) (test : Kids) (tt : Bool) (body : Stmt) (o : Outcome)
     (ih : ∀ o', (body.compl []).has o' = true → Exec [] body o')
+    (iht : ∀ o', test.compl.has o' = true → EvalKids test o')
     (h : (Stmt.compl ls (.whileS p test tt body)).has o = true) : Exec ls (.whileS p test tt body) o := by
-  simp only [Stmt.compl] at h
-  rcases seq_has_inv h with ⟨ha, ht⟩ | ⟨_, hl⟩
-  · obtain ⟨rfl, rfl, he⟩ := testCompl_abrupt_inv ha ht
-    exact .while_testThrows he
-  · rcases (has_loopCompl_iff _ _ _ _).mp hl with ⟨rfl, he⟩ | ⟨o1, h1, hx⟩
-    · have : tt = false := by simpa using he
-      subst this; exact .while_done
-    · rw [has_union, Bool.or_eq_true] at h1
-      rcases h1 with h1 | h1
-      · exact .while_exit (ih o1 h1) hx
-      · simp only [has_guard, has_abrupt, Bool.and_eq_true] at h1
-        obtain ⟨hg, ha, ht⟩ := h1
-        obtain ⟨rfl, rfl, he⟩ := testCompl_abrupt_inv ((Outcome.abrupt_iff o1).mp ha) ht
-        obtain ⟨o2, h2, hc⟩ := (goesRound_iff _ _).mp hg
-        rw [exitsLoop_thr, Option.some.injEq] at hx; subst hx
-        exact .while_again (ih o2 h2) hc (.while_testThrows he)
+  simp only [Stmt.compl, testComplOf_eq] at h
+  rcases seq_has_inv h with ⟨ha, ht⟩ | ⟨htn, hl⟩
+  · exact .while_testAbrupt (testCompl_has_inv iht ht) ha
+  · have hT := testCompl_has_inv iht htn
+    rcases union_has_inv hl with hl | hx
+    · rcases (has_loopCompl_iff _ _ _ _).mp hl with ⟨rfl, he⟩ | ⟨o1, h1, hx⟩
+      · have : tt = false := by simpa using he
+        subst this; exact .while_done hT
+      · exact .while_exit hT (ih o1 h1) hx
+    · obtain ⟨hg, ha, ht⟩ := guard_abrupt_inv hx
+      obtain ⟨o2, h2, hc⟩ := (goesRound_iff _ _).mp hg
+      exact .while_again hT (ih o2 h2) hc (.while_testAbrupt (testCompl_has_inv iht ht) ha)
 
 theorem doWhile_complete (ls : List Id) (p : Nat) (body : Stmt) (test : Kids) (tt : Bool) (o : Outcome)
     (ih : ∀ o', (body.compl []).has o' = true → Exec [] body o')
+    (iht : ∀ o', test.compl.has o' = true → EvalKids test o')
     (h : (Stmt.compl ls (.doWhileS p body test tt)).has o = true) : Exec ls (.doWhileS p body test tt) o := by
-  simp only [Stmt.compl] at h
-  rcases (has_loopCompl_iff _ _ _ _).mp h with ⟨rfl, he⟩ | ⟨o1, h1, hx⟩
-  · simp only [guard_n, testCompl_n, Bool.and_true, Bool.and_eq_true, Bool.not_eq_true'] at he
-    obtain ⟨o2, h2, hc⟩ := (goesRound_iff _ _).mp he.1
-    have := he.2; subst this
-    exact .do_done (ih o2 h2) hc
-  · rw [has_union, Bool.or_eq_true] at h1
-    rcases h1 with h1 | h1
+  simp only [Stmt.compl, testComplOf_eq] at h
+  rcases union_has_inv h with hl | hx
+  · rcases (has_loopCompl_iff _ _ _ _).mp hl with ⟨rfl, he⟩ | ⟨o1, h1, hx⟩
+    · simp only [guard_n, Bool.and_eq_true, Bool.not_eq_true'] at he
+      obtain ⟨o2, h2, hc⟩ := (goesRound_iff _ _).mp he.1.1
+      have := he.2; subst this
+      exact .do_done (ih o2 h2) hc (testCompl_has_inv iht he.1.2)
     · exact .do_exit (ih o1 h1) hx
-    · simp only [has_abrupt, has_guard, Bool.and_eq_true] at h1
-      obtain ⟨ha, hg, ht⟩ := h1
-      obtain ⟨rfl, rfl, he⟩ := testCompl_abrupt_inv ((Outcome.abrupt_iff o1).mp ha) ht
-      obtain ⟨o2, h2, hc⟩ := (goesRound_iff _ _).mp hg
-      rw [exitsLoop_thr, Option.some.injEq] at hx; subst hx
-      exact .do_testThrows (ih o2 h2) hc he
+  · obtain ⟨hg, ha, ht⟩ : (goesRound ls (body.compl []) = true) ∧ o ≠ .normal ∧ (testCompl tt test).has o = true := by
+      simp only [has_abrupt, has_guard, Bool.and_eq_true] at hx
+      exact ⟨hx.2.1, (Outcome.abrupt_iff o).mp hx.1, hx.2.2⟩
+    obtain ⟨o2, h2, hc⟩ := (goesRound_iff _ _).mp hg
+    exact .do_testAbrupt (ih o2 h2) hc (testCompl_has_inv iht ht) ha
 
 theorem forLoop_complete (ls : List Id) (u t : Kids) (ht tt : Bool) (body : Stmt) (o : Outcome)
     (ih : ∀ o', (body.compl []).has o' = true → Exec [] body o')
+    (iht : ∀ o', t.compl.has o' = true → EvalKids t o')
+    (ihu : ∀ o', u.compl.has o' = true → EvalKids u o')
     (h : (forLoopC ls u t ht tt body).has o = true) : ExecFor ls u t ht tt body o := by
   simp only [forLoopC] at h
-  rcases seq_has_inv h with ⟨ha, hte⟩ | ⟨_, hl⟩
-  · obtain ⟨rfl, rfl, he⟩ := testCompl_abrupt_inv ha hte
-    exact .testThrows he
-  · rcases (has_loopCompl_iff _ _ _ _).mp hl with ⟨rfl, he⟩ | ⟨o1, h1, hx⟩
-    · simp only [Bool.and_eq_true, Bool.not_eq_true'] at he
-      obtain ⟨rfl, rfl⟩ := he
-      exact .done
-    · rw [has_union, Bool.or_eq_true] at h1
-      rcases h1 with h1 | h1
-      · exact .exit (ih o1 h1) hx
-      · simp only [has_guard, has_abrupt, Bool.and_eq_true] at h1
-        obtain ⟨hg, ha, hs⟩ := h1
-        have ha' := (Outcome.abrupt_iff o1).mp ha
-        obtain ⟨o2, h2, hc⟩ := (goesRound_iff _ _).mp hg
-        rcases seq_has_inv hs with ⟨_, hu⟩ | ⟨_, hte⟩
-        · obtain ⟨rfl, he⟩ := evalCompl_abrupt_inv ha' hu
-          rw [exitsLoop_thr, Option.some.injEq] at hx; subst hx
-          exact .updateThrows (ih o2 h2) hc he
-        · obtain ⟨rfl, rfl, he⟩ := testCompl_abrupt_inv ha' hte
-          rw [exitsLoop_thr, Option.some.injEq] at hx; subst hx
-          exact .again (ih o2 h2) hc (.testThrows he)
+  rcases seq_has_inv h with ⟨ha, hte⟩ | ⟨htn, hl⟩
+  · exact .testAbrupt (testCompl_has_inv iht hte) ha
+  · have hT := testCompl_has_inv iht htn
+    rcases union_has_inv hl with hl | hx
+    · rcases (has_loopCompl_iff _ _ _ _).mp hl with ⟨rfl, he⟩ | ⟨o1, h1, hx⟩
+      · simp only [Bool.and_eq_true, Bool.not_eq_true'] at he
+        obtain ⟨rfl, rfl⟩ := he
+        exact .done hT
+      · exact .exit hT (ih o1 h1) hx
+    · obtain ⟨hg, ha, hs⟩ := guard_abrupt_inv hx
+      obtain ⟨o2, h2, hc⟩ := (goesRound_iff _ _).mp hg
+      rcases seq_has_inv hs with ⟨_, hu⟩ | ⟨hun, hte⟩
+      · exact .updateAbrupt hT (ih o2 h2) hc (ihu o hu) ha
+      · exact .again hT (ih o2 h2) hc (ihu .normal hun) (.testAbrupt (testCompl_has_inv iht hte) ha)
 
 theorem forIn_complete (ls : List Id) (l : Kids) (body : Stmt) (o : Outcome)
     (ih : ∀ o', (body.compl []).has o' = true → Exec [] body o')
+    (ihl : ∀ o', l.compl.has o' = true → EvalKids l o')
     (h : (forInC ls l body).has o = true) : ExecForIn ls l body o := by
   simp only [forInC] at h
-  rcases seq_has_inv h with ⟨ha, hl⟩ | ⟨_, hl⟩
-  · obtain ⟨rfl, he⟩ := evalCompl_abrupt_inv ha hl
-    exact .leftThrows he
-  · rcases (has_loopCompl_iff _ _ _ _).mp hl with ⟨rfl, _⟩ | ⟨o1, h1, hx⟩
-    · exact .done
-    · rw [has_union, Bool.or_eq_true] at h1
-      rcases h1 with h1 | h1
-      · exact .exit (ih o1 h1) hx
-      · simp only [has_abrupt, Bool.and_eq_true] at h1
-        obtain ⟨rfl, he⟩ := evalCompl_abrupt_inv ((Outcome.abrupt_iff o1).mp h1.1) h1.2
-        rw [exitsLoop_thr, Option.some.injEq] at hx; subst hx
-        exact .leftThrows he
+  rcases seq_has_inv h with ⟨ha, hl⟩ | ⟨hln, hl⟩
+  · exact .leftAbrupt (ihl o hl) ha
+  · have hL := ihl .normal hln
+    rcases union_has_inv hl with hl | hx
+    · rcases (has_loopCompl_iff _ _ _ _).mp hl with ⟨rfl, _⟩ | ⟨o1, h1, hx⟩
+      · exact .done hL
+      · exact .exit hL (ih o1 h1) hx
+    · simp only [has_abrupt, Bool.and_eq_true] at hx
+      exact .leftAbrupt (ihl o hx.2) ((Outcome.abrupt_iff o).mp hx.1)
 
 end DL.CF
